@@ -15,7 +15,7 @@ def run(ctx):
     ev = ctx.work / "events.ndjson"
     ctx.dsv("C05", "drive", "--out", ev, "--universe", ",".join(paths), "--maxgen", 4 if ctx.quick else 6,
             *(["--deep", 12, "--deep-per", 80, "--deep-covers", 900] if ctx.quick else
-              ["--deep", 120, "--deep-per", 100000, "--deep-list", 3000, "--deep-covers", 90000]), timeout=14400)
+              ["--deep", 120, "--deep-per", 100000, "--deep-list", 3000, "--deep-covers", 40000]), timeout=14400)
     for ln in open(ev):
         e = json.loads(ln)
         n = e["in"]["n"]
